@@ -4,6 +4,7 @@ import Martian.VdrFs
 import Martian.VdrBuild
 import Martian.VdrVal
 import Martian.VdrEval
+import Martian.VdrHyp
 
 /-! Line-protocol handler for properties C04 / C14 (the VDR model).
 
@@ -92,6 +93,7 @@ def parseEv (s : String) : Option Ev :=
   | 'd' :: r => some (.nodeDone (String.ofList r))
   | 'f' :: r => some (.nodeFailed (String.ofList r))
   | 'r' :: r => some (.nodeReset (String.ofList r))
+  | ['R'] => some .restart
   | ['e'] => some .removeEmpty
   | ['c'] => some .cacheMap
   | ['k'] => some .kill
@@ -344,6 +346,9 @@ def handle (op : String) (args : List String) : Option String :=
       argNames := ← parseArgPaths names, argFiles := ← parseArgPaths files }
     let fa ← parseAssoc fargs
     let pn ← parseAssoc pnodes
+    let c : Cfg := { c with
+      initArgs := fa.map fun (a, hs) => (a, hs.map fun h => if h == "~" then none else some h),
+      initPost := pn }
     let cache ← parseCache cache
     let disk ← parseDisk disk
     let (cnt, sz) ← match rep.splitOn "|" with
@@ -355,7 +360,10 @@ def handle (op : String) (args : List String) : Option String :=
       ran := (if ran == "." then [] else ran.toList.map fun ch => ch.toNat - 48),
       report := { count := cnt, size := sz }, doneNodes := idList done }
     let evs ← parseEvs evs
-    pure (showState (run c s evs))
+    -- the decidable hypotheses of the theorems, evaluated on the replayed state
+    let b := fun (x : Bool) => if x then "1" else "0"
+    pure (showState (run c s evs) ++ " hyp=" ++ b (cfgOKB c s) ++ b (pathKindsB s.disk) ++ b (sepB s.disk) ++
+      b (linksTopB s.disk))
   | "mergeevents", [evs] => do
     let evs ← parseEvents evs
     pure (showEvents (mergeEvents evs))
